@@ -22,8 +22,9 @@ ASSUMPTIONS = ['crash points are confined to the dynamic extent of assemble() pl
                'the -l file is judged as: one line per label, the label name and an integer in any base equal to the API\'s labels dict']
 REQUIRED_REACH = {'quick': ['fail:with-preexisting-files', 'ok:outputs-checked', 'inject:pass-fired', 'inject:line-fired'],
                   'thorough': ['fail:with-preexisting-files', 'ok:outputs-checked', 'inject:pass-fired', 'inject:line-fired']}
-EXPECTED_REACH = ['ok:hex-checked', 'ok:labels-checked', 'ok:hex-straddles-64k', 'fail:cli-validation', 'opt:include-definitions',
-                  'opt:verbose', 'opt:compress', 'fail:natural'] + ['failpass:' + p for p in asmsim.PASSES if p not in ('resolve_labels', 'resolve_strings', 'resolve_blobs', 'lex_tokens', 'transform_shorthand_packs', 'resolve_register_aliases', 'resolve_include_bytes')]
+FATAL_OBS = ('xval:DISAGREE',)
+EXPECTED_REACH = ['xval:sim-and-real-agree', 'ok:hex-checked', 'ok:labels-checked', 'ok:hex-straddles-64k', 'fail:cli-validation', 'opt:include-definitions',
+                  'opt:verbose', 'opt:compress', 'fail:natural'] + ['failpass:' + p for p in asmsim.PASSES if p not in ('resolve_labels', 'resolve_strings', 'resolve_blobs', 'lex_tokens', 'transform_shorthand_packs', 'resolve_register_aliases', 'resolve_include_bytes', 'resolve_aligns')]
 CHUNK = 100
 SENT = {'out': 'OLD-OUTPUT-SENTINEL\n', 'labels': 'old_label 0x00000bad\n', 'hex': ':00000001FF\n'}
 HEX_OK = ['0', '0x08000000', '134217728', '0o1000', '0xFFF0', '0xFFFE', '65535', '0x20000', '0b1000', '0x1FFFC']
@@ -139,6 +140,7 @@ def plan(tier, seed):
     specs.extend({'k': 'r'} for _ in range(9000 if tier == 'quick' else 600000))
     specs.extend({'k': 'l'} for _ in range(4000 if tier == 'quick' else 200000))
     specs.extend({'k': 'w'} for _ in range(600 if tier == 'quick' else 30000))
+    specs.extend({'k': 'x'} for _ in range(60 if tier == 'quick' else 2000))
     return specs
 
 
@@ -212,14 +214,16 @@ def make_scenario(spec, seed, idx):
             c = r.random()
             n = r.randint(1, total) if c < 0.8 else r.choice((1, 2, total, total - 1, max(1, total - 5)))
             scen['inject'] = {'kind': 'line', 'n': max(1, n)}
+    elif k == 'x':
+        scen['xval'] = True
     elif k == 'w':
         scen['fs_faults'] = [{'op': r.choice(('write', 'write', 'open-w')), 'n': r.randint(1, 3), 'kind': r.choice(('ENOSPC', 'EIO', 'EACCES'))}]
     return scen
 
 
-def build_fs(scen):
+def build_fs(scen, factory=None):
     files = progs.tree_files_bytes(scen['tree'])
-    fs = asmsim.make_fs(files, scen['dirs'], cwd=scen['cwd'], faults=copy.deepcopy(scen.get('fs_faults') or []))
+    fs = (factory or asmsim.make_fs)(files, scen['dirs'], cwd=scen['cwd'], faults=copy.deepcopy(scen.get('fs_faults') or []))
     if scen['opts'].get('defs'):
         asmsim.add_definitions(fs)
     for key, content in (scen.get('pre') or {}).items():
@@ -249,10 +253,31 @@ def parse_labels_file(text):
     return out, len(lines)
 
 
+def cross_validate(scen, res):
+    """Fidelity of the stub: the same scenario on SimFS and on a real temp tree must end the same way and leave the same files."""
+    from .simfs import SimFS
+    from .realfs import RealFS
+    outs = []
+    for factory in (SimFS, RealFS):
+        fs = build_fs(scen, factory)
+        x = asmsim.run_cli(fs, scen['argv'], core.EventLog(0))
+        tree = {p: d for p, d in fs.files.items() if not p.startswith('/repo')}
+        outs.append((x['outcome'], x['code'], (x['msg'] or '').replace('\n', ' | ')[:300], tree))
+    a, b = outs
+    if a[:2] != b[:2] or a[3] != b[3] or a[2] != b[2]:
+        which = 'outcome' if a[:2] != b[:2] else ('files' if a[3] != b[3] else 'message')
+        res.observe('xval:DISAGREE:' + which)
+        res.events_extra = 'sim=%r real=%r' % (a[:3], b[:3])
+    else:
+        res.hit('xval:sim-and-real-agree')
+
+
 @asmsim.with_fallback
 def run_scenario(scen, keep_events=False):
     res = core.Result()
     log = core.EventLog(keep=600 if keep_events else 0)
+    if scen.get('xval') and asmsim.BACKEND == 'sim':
+        cross_validate(scen, res)
     fs = build_fs(scen)
     before = dict(fs.files)
     paths = scen['paths']
